@@ -17,7 +17,16 @@ type recInput struct {
 	Rcv [][]any `json:"rcv"`
 }
 
+// factors of the scaling lift: pairing only compares, subtracts and adds, so a list multiplied by U gives U times the postings.
+// 2^60 .. 2^62 put small multiples on both sides of 2^63 and 2^64 (the sizes at which a machine word stops being enough)
+var recFactors = []string{"1152921504606846976", "2305843009213693952", "4611686018427387904", "9223372036854775808", "18446744073709551616",
+	"4294967296", "3074457345618258603", "1000000000000000000000000000000"}
+
 func runReconcile(in recInput) (post []interpreter.Posting, st string) {
+	return runReconcileScaled(in, big.NewInt(1))
+}
+
+func runReconcileScaled(in recInput, U *big.Int) (post []interpreter.Posting, st string) {
 	defer func() {
 		if r := recover(); r != nil {
 			st = "panic"
@@ -27,10 +36,10 @@ func runReconcile(in recInput) (post []interpreter.Posting, st string) {
 	var snd []interpreter.Sender
 	var rcv []interpreter.Receiver
 	for _, s := range in.Snd {
-		snd = append(snd, interpreter.Sender{Name: s[0].(string), Monetary: big.NewInt(int64(s[1].(float64)))})
+		snd = append(snd, interpreter.Sender{Name: s[0].(string), Monetary: new(big.Int).Mul(U, big.NewInt(int64(s[1].(float64))))})
 	}
 	for _, r := range in.Rcv {
-		rcv = append(rcv, interpreter.Receiver{Name: r[0].(string), Monetary: big.NewInt(int64(r[1].(float64)))})
+		rcv = append(rcv, interpreter.Receiver{Name: r[0].(string), Monetary: new(big.Int).Mul(U, big.NewInt(int64(r[1].(float64))))})
 	}
 	ps, err := interpreter.Reconcile("COIN", snd, rcv)
 	if err != nil {
@@ -60,7 +69,27 @@ func cmdRec(args []string) {
 			die(2, "bad input line: %v", err)
 		}
 		post, st := runReconcile(in)
-		lw.write(J{"e": "rec", "id": n, "snd": in.Snd, "rcv": in.Rcv, "post": postingsToJSON(post), "st": st})
+		// the same lists multiplied by each huge factor (real against real; the small run is the one TLC judges)
+		scaled, badFactor := true, ""
+		bigJ := []any{}
+		bst := st
+		for _, f := range recFactors {
+			U, _ := new(big.Int).SetString(f, 10)
+			bpost, bst1 := runReconcileScaled(in, U)
+			ok := bst1 == st && len(bpost) == len(post)
+			for j, bp := range bpost {
+				if ok && (bp.Source != post[j].Source || bp.Destination != post[j].Destination || bp.Amount.Cmp(new(big.Int).Mul(U, post[j].Amount)) != 0) {
+					ok = false
+				}
+			}
+			if !ok && scaled {
+				scaled, badFactor, bst = false, f, bst1
+				for _, bp := range bpost {
+					bigJ = append(bigJ, []any{bp.Source, bp.Destination, bp.Amount.String(), bp.Asset})
+				}
+			}
+		}
+		lw.write(J{"e": "rec", "id": n, "snd": in.Snd, "rcv": in.Rcv, "post": postingsToJSON(post), "st": st, "factor": badFactor, "scaled": scaled, "bigpost": bigJ, "bigst": bst})
 		if len(post) >= 2 {
 			nontriv++
 			if len(samples) < 3 && len(post) >= 3 {
